@@ -110,6 +110,11 @@ type CB struct {
 	PushSeq    uint32
 	PushTyp    uint16
 
+	// NestedClose: not a callback but a marker: the Stream called Close from inside the preceding callback
+	// ("begin" before the call, "end" after it, with the result in NestedErr)
+	NestedClose string
+	NestedErr   error
+
 	Lost int      // >0: EventsLost(Lost); otherwise a ReassemblyComplete
 	IsEv bool     // ReassemblyComplete
 	IDs  []int    // message ids (op index of the push) in callback order; -1 = not a pushed message
@@ -186,6 +191,10 @@ func (r *recorder) ReassemblyComplete(msgs []*auparse.AuditMessage) {
 	switch r.reenter {
 	case "maintain":
 		_ = r.r.Maintain()
+	case "close":
+		r.cur.CBs = append(r.cur.CBs, CB{NestedClose: "begin"})
+		err := r.r.Close()
+		r.cur.CBs = append(r.cur.CBs, CB{NestedClose: "end", NestedErr: err})
 	case "pushfresh", "pusheoe":
 		id := nestedIDBase + r.nested
 		r.nested++
@@ -541,4 +550,62 @@ func fpHistory(h History) uint64 {
 func init() {
 	// make sure a stale rapid fail file can never be replayed
 	_ = os.RemoveAll("testdata/rapid")
+}
+
+// heldBackHistories: many events become deliverable in ONE call, with gaps between them. An incomplete head
+// event holds back n complete events (maxInFlight is larger than n, the timeout an hour); its EOE then lets one
+// PushMessage deliver all of them; afterwards sequences from inside the gaps arrive late, then Maintain and
+// Close. Variants: a gap in front of every event / of every 7th event / of the last two / around the 64th and
+// 128th position. (The same with the head expired by a short timeout is C19's large stage.)
+func heldBackHistories() (hs []History, what []string) {
+	sizes := []int{63, 64, 65, 66, 129, 300}
+	if hx.Thorough() {
+		sizes = append(sizes, 127, 128, 255, 256, 257, 1025, 3000)
+	}
+	for _, n := range sizes {
+		for variant := 0; variant < 4; variant++ {
+			h := History{MaxInFlight: n + 10, TimeoutNs: int64(time.Hour), Windowed: true, Base: 1 << 22}
+			h.Ops = append(h.Ops, Op{K: opPush, Seq: h.Base, Typ: 1300})
+			seq := h.Base
+			var gaps []uint32 // one sequence number out of every gap
+			for i := 1; i <= n; i++ {
+				gap := false
+				switch variant {
+				case 0:
+					gap = true
+				case 1:
+					gap = i%7 == 0
+				case 2:
+					gap = i == n-1 || i == n
+				case 3:
+					gap = i == 64 || i == 65 || i == 128 || i == 129
+				}
+				seq++
+				if gap {
+					gaps = append(gaps, seq)
+					seq += uint32(1 + i%3)
+				}
+				h.Ops = append(h.Ops, Op{K: opPush, Seq: seq, Typ: 1300}, Op{K: opPush, Seq: seq, Typ: 1307}, Op{K: opPush, Seq: seq, Typ: eoe})
+			}
+			h.Ops = append(h.Ops, Op{K: opPush, Seq: h.Base, Typ: eoe}) // everything becomes deliverable at once
+			for i := len(gaps) - 1; i >= 0 && i >= len(gaps)-4; i-- {
+				h.Ops = append(h.Ops, Op{K: opPush, Seq: gaps[i], Typ: 1300}) // late arrivals out of the reported gaps
+			}
+			h.Ops = append(h.Ops, Op{K: opMaintain}, Op{K: opPush, Seq: seq + 5, Typ: 1300}, Op{K: opPush, Seq: seq + 5, Typ: eoe}, Op{K: opClose})
+			hs = append(hs, h)
+			what = append(what, fmt.Sprintf("an incomplete head event in front of %d complete events (gap pattern %d), its EOE, late arrivals, Maintain, Close", n, variant))
+		}
+	}
+	return hs, what
+}
+
+func runHeldBack(t *testing.T, h *hx.H, test string, prop func(History) error) {
+	hs, what := heldBackHistories()
+	for i := range hs {
+		h.Eval()
+		if err := hx.Guard(prop, hs[i]); err != nil {
+			h.Fail(t, test, hs[i], "%s: %v", what[i], err)
+		}
+		h.Class("many-events-delivered-by-one-call")
+	}
 }
